@@ -65,7 +65,12 @@ var (
 )
 
 func quotedValue(r *rand.Rand) string {
-	switch r.Intn(7) {
+	switch r.Intn(9) {
+	case 7:
+		// two paragraphs: an empty line inside the value, text after it.
+		return words(r, 2) + "\n\n" + words(r, 3)
+	case 8:
+		return words(r, 1) + "\n\n" + words(r, 2) + "\n" + words(r, 1) + "\n\n" + words(r, 1)
 	case 0:
 		return ""
 	case 1:
